@@ -471,11 +471,34 @@ theorem inv_mockStep (cfg : Cfg) (s s' : St) (b v : Nat) (m : String) (kind : Ki
     subst he
     exact inv_mms cfg _ _ _ (inv_proxyInterface cfg s2 s3 j m _ _ hI2 hj hcn hp)
 
+theorem inv_cancelMStep (cfg : Cfg) (s s' : St) (b v : Nat) (m : String) (st : Status) (hI : Inv cfg s)
+    (hs : cancelMStep cfg s b v m = some (s', st)) : Inv cfg s' := by
+  have hI1 := inv_interfaceOf cfg s b v hI
+  simp only [cancelMStep] at hs
+  generalize interfaceOf cfg s b v = r1 at hs hI1
+  obtain ⟨j, s1⟩ := r1
+  simp only at hs hI1
+  split at hs
+  · simp only [Option.some.injEq, Prod.mk.injEq] at hs; obtain ⟨h1, _⟩ := hs; subst h1; exact hI1
+  split at hs
+  · simp only [Option.some.injEq, Prod.mk.injEq] at hs; obtain ⟨h1, _⟩ := hs; subst h1; exact hI1
+  have hI2 := inv_methodOf cfg s1 j m hI1
+  generalize methodOf s1 j m = r2 at hs hI2
+  obtain ⟨i, s2⟩ := r2
+  simp only at hs hI2
+  cases hq : cancelMM s2 i with
+  | none => simp [hq] at hs
+  | some s3 =>
+    simp only [hq, Option.map_some, Option.some.injEq, Prod.mk.injEq] at hs
+    obtain ⟨h1, _⟩ := hs; subst h1
+    exact inv_cancelMM cfg s2 s3 i hI2 hq
+
 theorem inv_step (cfg : Cfg) (s s' : St) (op : Op) (st : Status) (hI : Inv cfg s) (hapi : op.builderApi = true)
     (hs : step cfg s op = some (s', st)) : Inv cfg s' := by
   cases op with
   | mock b v m kind fits => exact inv_mockStep cfg s s' b v m kind fits st hI hs
   | mockH b v m kind fits => simp [Op.builderApi] at hapi
+  | cancelM b v m => exact inv_cancelMStep cfg s s' b v m st hI hs
   | reset b =>
     simp only [step, resetStep] at hs
     cases hq : cancelMMs s (mmsOf s b) with
